@@ -1,8 +1,10 @@
 package checks
 
 import (
+	"encoding/binary"
 	"encoding/json"
 	"fmt"
+	"math"
 	"sync/atomic"
 
 	"github.com/jrhy/mast"
@@ -165,6 +167,57 @@ func c19Cases(cfg *world.Config, v *version) []*c19Case {
 					continue
 				}
 				mk("counts", fmt.Sprintf("top node reframed with %d keys, %d values, %d links", nK, nV, nL), func(c *c19Case) { c.store[v.link] = b })
+			}
+		}
+	}
+	// lengths no buffer can hold (binary format): an element count or a body length of 2^62, 2^63 (negative as an
+	// int), 2^64-1, at the start of the node, in its first key, after its keys, in its link section. (2^40 and the
+	// like are left out on purpose: an unguarded decoder would try to allocate terabytes, which nothing can recover from.)
+	if cfg.Format == ref.FormatBinary {
+		uv := func(x uint64) []byte {
+			var tmp [binary.MaxVarintLen64]byte
+			return append([]byte{}, tmp[:binary.PutUvarint(tmp[:], x)]...)
+		}
+		// offsets at which a length starts in the real top node: walk it with the reference framing
+		var offs []int
+		{
+			b := top
+			pos := 0
+			rd := func() (uint64, bool) {
+				x, k := binary.Uvarint(b[pos:])
+				if k <= 0 {
+					return 0, false
+				}
+				offs = append(offs, pos)
+				pos += k
+				return x, true
+			}
+			for sec := 0; sec < 3; sec++ {
+				n, ok := rd()
+				if !ok {
+					break
+				}
+				for i := uint64(0); i < n; i++ {
+					l, ok := rd()
+					if !ok || pos+int(l) > len(b) {
+						break
+					}
+					pos += int(l)
+				}
+			}
+		}
+		for _, x := range []uint64{1 << 62, 1 << 63, math.MaxUint64} {
+			x := x
+			for oi, off := range offs {
+				if oi > 3 && oi != len(offs)-1 && oi != len(offs)/2 {
+					continue // the first lengths, one in the middle, the last one
+				}
+				off := off
+				mk("huge-length", fmt.Sprintf("top node with the length at byte %d replaced by %d", off, x), func(c *c19Case) {
+					_, k := binary.Uvarint(top[off:])
+					nb := append(append(append([]byte{}, top[:off]...), uv(x)...), top[off+k:]...)
+					c.store[v.link] = nb
+				})
 			}
 		}
 	}
